@@ -30,7 +30,32 @@ CONTRACTS["witnesses.len"] = lambda it, recv, a: VOpaque("len", [recv])
 CONTRACTS["constraints.push"] = lambda it, recv, a: ev(it, "push_row", canon(a[0]))
 CONTRACTS["witnesses.push"] = lambda it, recv, a: ev(it, "push_witness", canon(a[0]))
 CONTRACTS["public_inputs.insert"] = lambda it, recv, a: ev(it, "public_inputs.insert", canon(a[0]), canon(a[1]))
-CONTRACTS["perm.add_witnesses_to_map"] = lambda it, recv, a: ev(it, "perm.add_witnesses_to_map", *[canon(x) for x in a])
+# the permutation map at the level of its PRIMITIVE: "wire w is registered in the cycle of witness x" (witness_map[x].push / .extend); the
+# helpers built on it (add_witnesses_to_map, add_witness_to_map, whatever a change introduces) are inlined from src/composer/permutation.rs
+def c_wires_of(it, recv, a):
+    return VOpaque("wires_of", [a[0]])
+
+
+def c_register(it, recv, a):
+    """witness_map.get_mut(x).unwrap().push(w) / .extend(ws): one `perm.register(x, w)` per wire, in order"""
+    if isinstance(recv, VOpaque) and recv.name == "unwrap" and recv.args and isinstance(recv.args[0], VOpaque):
+        recv = recv.args[0]              # `.get_mut(x).unwrap()`: every witness handed to a gate was allocated (see valid_witnesses)
+    if not (isinstance(recv, VOpaque) and recv.name == "wires_of"):
+        return NotImplemented
+    from vlib.ring import VIter
+    items = a[0].items if isinstance(a[0], (VArr, VIter)) else [a[0]]
+    for w_ in items:
+        ev(it, "perm.register", canon(recv.args[0]), canon(w_))
+    return UNIT
+
+
+CONTRACTS["witness_map.get_mut"] = c_wires_of
+CONTRACTS[".push"] = c_register
+CONTRACTS[".extend"] = c_register
+CONTRACTS["self.valid_witnesses"] = lambda it, recv, a: True      # ASSUMED here: every witness handed to a gate was allocated (wf(Composer), Verus view)
+CONTRACTS[".valid_witnesses"] = CONTRACTS["self.valid_witnesses"]
+for _k in ("Left", "Right", "Output", "Fourth"):
+    CONTRACTS["WireData::" + _k] = (lambda it, recv, a, _k=_k: VOpaque("WireData::" + _k, [a[0]]))
 CONTRACTS["perm.new_witness"] = lambda it, recv, a: ev(it, "perm.new_witness")
 CONTRACTS["constraint.witness"] = lambda it, recv, a: VOpaque("wire", [recv, a[0]])
 CONTRACTS["constraint.coeff"] = lambda it, recv, a: VOpaque("coeff", [recv, a[0]])
@@ -54,13 +79,16 @@ def c_append_custom_gate_internal(it, recv, a):
     # 2. a public input is registered for this row iff the constraint carries one (zero-valued ones included)
     it.ctx.event("if", canon(VOpaque("has_public_input", [c])),
                  (("public_inputs.insert", canon(n), canon(coeff("PublicInput"))),))
-    # 3. EVERY row enters the permutation map (copy constraints on all four wires)
-    ev(it, "perm.add_witnesses_to_map", canon(wire("A")), canon(wire("B")), canon(wire("C")), canon(wire("D")), canon(n))
+    # 3. EVERY row enters the permutation map: each of its four wires is registered in the cycle of the witness it carries
+    for k, wd in (("A", "Left"), ("B", "Right"), ("C", "Output"), ("D", "Fourth")):
+        ev(it, "perm.register", canon(wire(k)), canon(VOpaque("WireData::" + wd, [n])))
     return UNIT
 
 
-unit("composer.append_custom_gate_internal.trace", CM, "Composer::append_custom_gate_internal",
-     [("self", sym("self")), ("constraint", sym("constraint"))], c_append_custom_gate_internal, out_log)
+_u = unit("composer.append_custom_gate_internal.trace", CM, "Composer::append_custom_gate_internal",
+          [("self", sym("self")), ("constraint", sym("constraint"))], c_append_custom_gate_internal, out_log)
+_u.helper_files = ["src/composer/permutation.rs"]
+_u.max_paths = 2048
 
 
 def c_append_witness_internal(it, recv, a):
